@@ -146,7 +146,8 @@ impl Engine {
                     self.m.nominee = Some((cand.clone(), self.w.now_s() + WEEK));
                     let po = self.q(json!({"state": {}})).map(|v| v["pending_owner"].as_str().unwrap_or("").to_string());
                     if po.as_deref() != Some(cand.as_str()) {
-                        self.v("C12", "nomination_recorded", format!("pending owner is {:?} after nominating {}", po, cand));
+                        // observational: the model keeps the nominee the admin named
+                        self.vo("C12", "nomination_recorded", format!("pending owner is {:?} after nominating {}", po, cand));
                     }
                 }
             }
@@ -730,6 +731,15 @@ impl Engine {
         for k in changed_keys(&before, &after) {
             if !(k.starts_with(&infl) || k.starts_with(&wait) || k == b"contract_info") {
                 self.v("C18", "other_data_untouched", format!("migration changed record {:?}", String::from_utf8_lossy(&k)));
+                if k == b"state" {
+                    let (a, b) = (json_of(&before, b"state"), json_of(&after, b"state"));
+                    if a["pending_owner"] != b["pending_owner"] || a["owner_transfer_min_time"] != b["owner_transfer_min_time"] {
+                        self.v("C12", "upgrade_keeps_nomination_and_clock", format!("the migration changed the pending handover from ({}, {}) to ({}, {})", a["pending_owner"], a["owner_transfer_min_time"], b["pending_owner"], b["owner_transfer_min_time"]));
+                    }
+                }
+                if k == b"config" && json_of(&before, b"config")["stopped"] != json_of(&after, b"config")["stopped"] {
+                    self.v("C10", "upgrade_keeps_halted_flag", "the halted flag changed through a migration".into());
+                }
             }
         }
         let keys_b: Vec<&Vec<u8>> = before.keys().filter(|k| k.starts_with(&infl) || k.starts_with(&wait)).collect();
